@@ -61,3 +61,33 @@ Definition check (c : case) : bool * bool :=
     | CRel base v impl => agree Z.eqb (base_relative_16bits_pointer base v) impl
     end in
   (corr, spec_ok c).
+
+(** ** Exhaustive sweeps (thorough tier): one case = 65536 consecutive offsets, compared through an
+    order-sensitive checksum. *)
+Definition sweep_prime : Z := 2147483629.
+Definition sweep_step (f : Z -> Z) (st : Z * Z) : Z * Z :=
+  let '(i, acc) := st in (i + 1, (acc * 31 + (i + 1) * f i) mod sweep_prime).
+Definition sweep (f : Z -> Z) (base : Z) : Z :=
+  snd (Pos.iter (sweep_step (fun i => f (base + i))) (0, 0) 65536%positive).
+
+Inductive sweepfn := SwR2S | SwRound.
+Definition model_code (mode : romtype) (fn : sweepfn) (o : Z) : Z :=
+  match fn with SwR2S => rom_to_snes o mode | SwRound => snes_to_rom (rom_to_snes o mode) end.
+(** specification: the textbook address of the offset; the round trip gives the offset back (second
+    LoROM variant: below 0x200000 only, 0 = "not specified" above) *)
+Definition spec_code (mode : romtype) (fn : sweepfn) (o : Z) : Z :=
+  if negb (in_range o mode) then 0
+  else match fn with
+       | SwR2S => textbook o mode
+       | SwRound => match mode with LowRom2 => if o <? 2097152 then o else 0 | _ => o end
+       end.
+
+(** [impl] checksum of the raw results; [impl_in] with the unspecified offsets counted as 0. *)
+Inductive sweepcase := Sweep (mode : romtype) (chunk : Z) (fn : sweepfn) (impl impl_in : Z).
+Definition check_sweep (c : sweepcase) : bool * bool :=
+  let '(Sweep mode chunk fn impl impl_in) := c in
+  (sweep (model_code mode fn) (chunk * 65536) =? impl, sweep (spec_code mode fn) (chunk * 65536) =? impl_in).
+
+Inductive anycase := Plain (c : case) | Swept (c : sweepcase).
+Definition check_any (c : anycase) : bool * bool :=
+  match c with Plain c => check c | Swept c => check_sweep c end.
